@@ -532,3 +532,205 @@ Proof.
     apply (ssorted_app_rel fill_rel _ _ a b Hss Ha1 Hb2).
 Qed.
 End FillS.
+
+(* ======================================================================== *)
+(* DRAINED                                                                   *)
+(* ======================================================================== *)
+Definition drained_rel (a b : info) : Prop := cap a <= cap b.
+
+Lemma drained_sorted_strong l : Sorted (ngt drained_less) l -> StronglySorted drained_rel l.
+Proof.
+  intro H. apply Sorted_StronglySorted.
+  - intros a b c. unfold drained_rel. lia.
+  - eapply Sorted_impl; [|exact H]. intros a b. unfold ngt, drained_less, drained_rel.
+    destruct (Z.eqb_spec (cap b) (cap a)); simpl; lia.
+Qed.
+
+Definition caps (l : list info) : Z := sumZ (map cap l).
+Lemma caps_cons x l : caps (x :: l) = cap x + caps l.
+Proof. reflexivity. Qed.
+Lemma caps_nonneg l : Forall (fun x => 0 <= cap x) l -> 0 <= caps l.
+Proof. unfold caps, sumZ. induction 1; simpl; lia. Qed.
+Lemma caps_perm l l' : Permutation l l' -> caps l = caps l'.
+Proof. intro H. unfold caps. apply sumZ_perm. apply Permutation_map. exact H. Qed.
+
+Definition drained_fold (l : list info) (dep : plan) : plan :=
+  fold_left (fun d y => mset d (name y) (cap y)) l dep.
+
+Lemma drained_loop_spec : forall l need dep, 1 <= need -> Forall (fun x => 0 <= cap x) l ->
+  (caps l < need -> drained_loop l need dep = Err EInsufficientResource) /\
+  (need <= caps l -> exists l1 x l2, l = l1 ++ x :: l2 /\ caps l1 < need <= caps l1 + cap x /\
+     drained_loop l need dep = Ok (mset (drained_fold l1 dep) (name x) (need - caps l1))).
+Proof.
+  induction l as [|y t IH]; intros need dep Hneed Hcap.
+  - split; [reflexivity|]. unfold caps, sumZ; simpl. lia.
+  - inversion Hcap as [|? ? Hy Ht]; subst. pose proof (caps_nonneg t Ht) as Hnn.
+    rewrite caps_cons. cbn [drained_loop].
+    destruct (Z.ltb_spec need (cap y)) as [Hlt|Hge].
+    + cbn [Z.eqb]. split; [lia|]. intros _. exists [], y, t. split; [reflexivity|].
+      unfold caps, sumZ; simpl. split; [lia|]. rewrite Z.sub_0_r. reflexivity.
+    + destruct (Z.eqb_spec (need - cap y) 0) as [E0|E0].
+      * split; [lia|]. intros _. exists [], y, t. split; [reflexivity|].
+        unfold caps, sumZ; simpl. split; [lia|]. rewrite Z.sub_0_r. replace need with (cap y) by lia. reflexivity.
+      * destruct (IH (need - cap y) (mset dep (name y) (cap y))) as [I1 I2]; [lia|exact Ht|].
+        split.
+        -- intro Hc. apply I1. lia.
+        -- intro Hc. destruct I2 as (l1 & x & l2 & -> & Hb & Hr); [lia|].
+           exists (y :: l1), x, l2. split; [reflexivity|]. rewrite caps_cons. split; [lia|].
+           rewrite Hr. cbn [drained_fold fold_left]. f_equal. f_equal. lia.
+Qed.
+
+Lemma drained_fold_spec l : forall dep,
+  NoDup (names l) -> NoDup (map fst dep) -> (forall x, In x l -> mhas dep (name x) = false) ->
+  let r := drained_fold l dep in
+  NoDup (map fst r) /\
+  (forall k, mhas r k = mhas dep k || existsb (String.eqb k) (names l)) /\
+  (forall x, In x l -> mget r (name x) = cap x) /\
+  (forall k, ~ In k (names l) -> mget r k = mget dep k) /\
+  plan_sum r = plan_sum dep + caps l.
+Proof.
+  induction l as [|x t IH]; intros dep Hnd Hdep Hdis; cbv zeta.
+  - simpl. unfold caps, sumZ; simpl. repeat split; auto; intros; try rewrite orb_false_r; auto; try tauto; lia.
+  - simpl in Hnd. inversion Hnd as [|? ? Hx Ht]; subst.
+    assert (Hfresh : mhas dep (name x) = false) by (apply Hdis; left; reflexivity).
+    change (drained_fold (x :: t) dep) with (drained_fold t (mset dep (name x) (cap x))).
+    destruct (IH (mset dep (name x) (cap x))) as (I1 & I3 & I4 & I5 & I6); auto.
+    + apply nodup_keys_mset. exact Hdep.
+    + intros y Hy. rewrite mhas_mset. rewrite Hdis by (right; exact Hy).
+      rewrite orb_false_r. apply seqb_neq. intro E. apply Hx. rewrite E. apply in_names. exact Hy.
+    + split; [exact I1|]. split; [|split; [|split]].
+      * intro k. rewrite I3. rewrite mhas_mset. simpl. rewrite (seqb_sym k (name x)).
+        destruct (String.eqb (name x) k), (mhas dep k); reflexivity.
+      * intros y [->|Hy]; [|apply I4; exact Hy].
+        rewrite I5 by exact Hx. apply mget_mset_same.
+      * intros k Hk. simpl in Hk. rewrite I5 by tauto. apply mget_mset_other. tauto.
+      * rewrite I6. rewrite plan_sum_mset. rewrite (mhas_false_mget _ _ Hfresh). rewrite caps_cons. lia.
+Qed.
+
+Section DrainedS.
+Variables (infos sorted : list info) (need total : Z).
+Hypothesis Hvalid : valid_infos infos.
+Hypothesis Hperm : Permutation infos sorted.
+Hypothesis Hsorted : Sorted (ngt drained_less) sorted.
+Hypothesis Hneed : 0 < need.
+
+Definition drained_result : result :=
+  if total <? need then Err EInsufficientResource else drained_from sorted need total.
+
+Lemma drained_caps_nonneg : Forall (fun x => 0 <= cap x) sorted.
+Proof.
+  destruct Hvalid as [_ Hv]. rewrite Forall_forall in *. intros x Hx.
+  apply Hv. eapply Permutation_in; [symmetry; exact Hperm|exact Hx].
+Qed.
+
+Lemma drained_sorted_nodup : NoDup (names sorted).
+Proof. destruct Hvalid as [Hnd _]. eapply nodup_names_perm; eauto. Qed.
+
+(* shape of a successful run: l1 is drained completely, x takes the rest *)
+Lemma drained_from_plan pl : drained_from sorted need total = Ok pl ->
+  exists l1 x l2, sorted = l1 ++ x :: l2 /\ caps l1 < need <= caps l1 + cap x /\
+    NoDup (map fst pl) /\
+    (forall k, mhas pl k = true -> In k (names (l1 ++ [x]))) /\
+    (forall y, In y l1 -> mget pl (name y) = cap y) /\
+    mget pl (name x) = need - caps l1 /\
+    (forall k, ~ In k (names (l1 ++ [x])) -> mget pl k = 0) /\
+    plan_sum pl = need.
+Proof.
+  unfold drained_from. intro H.
+  destruct (drained_loop_spec sorted need [] ltac:(lia) drained_caps_nonneg) as [I1 I2].
+  destruct (Z.lt_ge_cases (caps sorted) need) as [Hlt|Hge]; [rewrite (I1 Hlt) in H; discriminate|].
+  destruct (I2 Hge) as (l1 & x & l2 & E & Hb & Hr). rewrite Hr in H. injection H as <-.
+  exists l1, x, l2. split; [exact E|]. split; [exact Hb|].
+  pose proof drained_sorted_nodup as Hnd. rewrite E, names_app in Hnd.
+  assert (Hnd1 : NoDup (names l1)) by (eapply nodup_app_l; eauto).
+  assert (Hx1 : ~ In (name x) (names l1)).
+  { intro Hin. apply (nodup_app_disjoint _ _ (name x) Hnd Hin). simpl. left; reflexivity. }
+  destruct (drained_fold_spec l1 [] Hnd1) as (F1 & F3 & F4 & F5 & F6); simpl; auto; [constructor|].
+  split; [apply nodup_keys_mset; exact F1|]. split; [|split; [|split; [|split]]].
+  - intros k Hk. rewrite mhas_mset, F3 in Hk. simpl in Hk. rewrite names_app. apply in_or_app.
+    apply orb_true_iff in Hk. destruct Hk as [Hk|Hk].
+    + right. apply seqb_eq in Hk. subst. simpl. left; reflexivity.
+    + left. apply existsb_eqb_in. exact Hk.
+  - intros y Hy. rewrite mget_mset_other; [apply F4; exact Hy|].
+    intro Exy. apply Hx1. rewrite Exy. apply in_names. exact Hy.
+  - apply mget_mset_same.
+  - intros k Hk. rewrite names_app, in_app_iff in Hk. simpl in Hk.
+    rewrite mget_mset_other by tauto. rewrite F5 by tauto. reflexivity.
+  - rewrite plan_sum_mset, F6. rewrite F5 by exact Hx1. unfold plan_sum at 1. simpl. unfold sumZ; simpl. lia.
+Qed.
+
+Lemma drained_C01 pl : drained_from sorted need total = Ok pl -> C01_spec Drained need 0 infos pl.
+Proof.
+  intro H. destruct (drained_from_plan pl H) as (l1 & x & l2 & E & Hb & P1 & P2 & P3 & P4 & P5 & P6).
+  pose proof drained_caps_nonneg as Hcn. rewrite Forall_forall in Hcn.
+  unfold C01_spec. split; [exact P1|]. split; [|split; [|split]].
+  - intros k Hk. specialize (P2 k Hk).
+    eapply Permutation_in; [symmetry; apply perm_names; exact Hperm|].
+    rewrite E. rewrite names_app in *. simpl. rewrite in_app_iff in *. simpl in *. tauto.
+  - intros y Hy. assert (Hys : In y sorted) by (eapply Permutation_in; eauto).
+    pose proof (Hcn y Hys) as Hcy.
+    rewrite E in Hys. apply in_app_or in Hys. destruct Hys as [Hy1|[<-|Hy2]].
+    + rewrite (P3 y Hy1). lia.
+    + rewrite P4. lia.
+    + rewrite P5; [lia|]. intro Hin. rewrite names_app, in_app_iff in Hin.
+      pose proof drained_sorted_nodup as Hnd. rewrite E in Hnd.
+      replace (l1 ++ x :: l2) with ((l1 ++ [x]) ++ l2) in Hnd by (rewrite <- app_assoc; reflexivity).
+      rewrite names_app in Hnd.
+      apply (nodup_app_disjoint _ _ (name y) Hnd).
+      * rewrite names_app. apply in_or_app. exact Hin.
+      * apply in_names. exact Hy2.
+  - exact P6.
+  - discriminate.
+Qed.
+
+Lemma drained_C01_limit pl limit : drained_from sorted need total = Ok pl -> C01_spec Drained need limit infos pl.
+Proof.
+  intro H. destruct (drained_C01 pl H) as (A & B & C & D & _).
+  unfold C01_spec. repeat split; auto; try apply C; auto. discriminate.
+Qed.
+
+Lemma drained_C02 : total = satsum (map cap infos) -> need <= max_int ->
+  (feasible Drained need 0 infos = true -> exists pl, drained_result = Ok pl) /\
+  (feasible Drained need 0 infos = false -> drained_result = Err EInsufficientResource).
+Proof.
+  intros Ht Hmax. unfold drained_result, feasible. fold (caps infos).
+  assert (Hs : total = Z.min max_int (caps infos)).
+  { rewrite Ht. apply satsum_spec. destruct Hvalid as [_ Hv].
+    rewrite Forall_forall in *. intros z Hz. apply in_map_iff in Hz. destruct Hz as (x & <- & Hx).
+    apply Hv. exact Hx. }
+  rewrite (caps_perm _ _ Hperm) in *.
+  destruct (drained_loop_spec sorted need [] ltac:(lia) drained_caps_nonneg) as [I1 I2].
+  split.
+  - rewrite Z.leb_le. intro Hf. destruct (Z.ltb_spec total need); [lia|].
+    destruct (I2 Hf) as (l1 & x & l2 & _ & _ & Hr). eexists. exact Hr.
+  - rewrite Z.leb_gt. intro Hf. destruct (Z.ltb_spec total need); [reflexivity|lia].
+Qed.
+
+Lemma drained_C03 pl limit : drained_from sorted need total = Ok pl -> C03_spec Drained need limit infos pl.
+Proof.
+  intro H. destruct (drained_from_plan pl H) as (l1 & x & l2 & E & Hb & P1 & P2 & P3 & P4 & P5 & P6).
+  intros a b Ha Hb'. cbv zeta. intros Hcap Hpb.
+  assert (Has : In a sorted) by (eapply Permutation_in; eauto).
+  assert (Hbs : In b sorted) by (eapply Permutation_in; eauto).
+  pose proof (drained_sorted_strong _ Hsorted) as Hss.
+  pose proof drained_sorted_nodup as Hnd.
+  (* b received something: it is in l1 or is x *)
+  assert (Hb1x : In b (l1 ++ [x])).
+  { rewrite E in Hbs. replace (l1 ++ x :: l2) with ((l1 ++ [x]) ++ l2) in Hbs by (rewrite <- app_assoc; reflexivity).
+    apply in_app_or in Hbs. destruct Hbs as [|Hb2]; [assumption|].
+    exfalso. rewrite P5 in Hpb; [lia|]. intro Hin.
+    rewrite E in Hnd. replace (l1 ++ x :: l2) with ((l1 ++ [x]) ++ l2) in Hnd by (rewrite <- app_assoc; reflexivity).
+    rewrite names_app in Hnd. apply (nodup_app_disjoint _ _ (name b) Hnd Hin). apply in_names. exact Hb2. }
+  (* a stands strictly before b, hence in l1 *)
+  rewrite E in Has. apply in_app_or in Has. destruct Has as [Ha1|Ha2]; [apply P3; exact Ha1|].
+  exfalso. apply in_app_or in Hb1x. destruct Hb1x as [Hbl1|[<-|[]]].
+  - rewrite E in Hss. pose proof (ssorted_app_rel drained_rel _ _ b a Hss Hbl1 Ha2) as Hr.
+    unfold drained_rel in Hr. lia.
+  - destruct Ha2 as [->|Ha2]; [lia|].
+    rewrite E in Hss. apply StronglySorted_inv in Hss || idtac.
+    assert (Hss2 : StronglySorted drained_rel (x :: l2)).
+    { clear -Hss. induction l1 as [|h t IH]; simpl in *; auto. inversion Hss; auto. }
+    inversion Hss2 as [|? ? _ Hall]; subst. rewrite Forall_forall in Hall.
+    specialize (Hall a Ha2). unfold drained_rel in Hall. lia.
+Qed.
+End DrainedS.
